@@ -324,6 +324,9 @@ class EvalMixin:
         if isinstance(op, ast.Mod) and isinstance(a, SV) and a.shape is ValS:
             return SV(ValS, z3.Const(fresh_name('fmt'), Val))
         a, b = self.force(a), self.force(b)
+        if self.spec and (isinstance(a, SNone) or isinstance(b, SNone)):
+            # arithmetic on a value that is None on this path (must be guarded by the clause): unspecified
+            return SV(RealS, z3.Real(fresh_name("undefined_arith")))
         if is_num(a) and is_num(b):
             ea, eb, s = num_join(a, b)
             if isinstance(op, ast.Add):
@@ -456,6 +459,11 @@ class EvalMixin:
             if isinstance(op, ast.GtE):
                 return ea >= eb
         if self.spec:
+            if isinstance(a, SNone) or isinstance(b, SNone):
+                # a clause comparing a value that is None on this path: such a
+                # comparison has to be guarded by the clause itself; its value
+                # is left unspecified (an arbitrary boolean)
+                return z3.Bool(fresh_name('undefined_comparison'))
             raise ContractError('ordering comparison at shapes %s, %s' % (a.shape, b.shape))
         self.raise_('TypeError', 'ordering not supported between %s and %s' % (a.shape, b.shape))
 
@@ -678,6 +686,65 @@ class EvalMixin:
     def ev_ListComp(self, node):
         return self.comprehension(node)
 
+    def symbolic_listcomp(self, node, seq):
+        """[x for x in <dict view> if cond(x)]  -> the view, filtered (cond is
+        evaluated in the state at this point);
+        [f(x) for x in <heap list>]          -> a new heap list, element-wise"""
+        from .builtins_impl import VView, alloc_container, const_map
+        g = node.generators[0]
+        if isinstance(seq, SRef) and seq.shape.cls in CONTAINERS and CONTAINERS[seq.shape.cls][0] in ('dict', 'set'):
+            seq = VView(seq, 'keys')
+        ident = isinstance(node.elt, ast.Name) and isinstance(g.target, ast.Name) and node.elt.id == g.target.id
+        if isinstance(seq, VView) and ident:
+            store_then = self.path.snapshot()
+            ex = self
+
+            def filt(elem):
+                cur = ex.path.store
+                ex.path.store = dict(store_then)
+                try:
+                    env = {g.target.id: elem}
+                    c = z3.BoolVal(True)
+                    for cond in g.ifs:
+                        c = z3.And(c, ex.spec_bool(cond, env))
+                    return c
+                finally:
+                    ex.path.store = cur
+            out = VView(seq.d, seq.kind)
+            prev = getattr(seq, 'filter', None)
+            out.filter = (lambda e: z3.And(prev(e), filt(e))) if prev else filt
+            return out
+        if isinstance(seq, SRef) and seq.shape.cls in CONTAINERS and CONTAINERS[seq.shape.cls][0] == 'list' and not g.ifs:
+            P = self.path
+            ln = P.read_field(seq, 'len').e
+            items = P.read_field(seq, 'items')
+            k = z3.Int(fresh_name('k'))
+            env = {}
+            self.push_scope()
+            try:
+                self.assign_target(g.target, items.shape.select(items, SV(IntS, k)))
+                env = dict(self.scopes[-1])
+            finally:
+                self.pop_scope()
+            sample = self.spec_eval(node.elt, env)
+            from .shapes import list_of
+            shape = list_of(sample.shape)
+            new = alloc_container(self, shape)
+            nitems = container_fields(shape.cls)['items'].fresh('mapped')
+            P.assume(z3.ForAll([k], z3.Implies(z3.And(k >= 0, k < ln), self.eq(
+                nitems.shape.select(nitems, SV(IntS, k)), sample))))
+            P.write_field(new, 'items', nitems)
+            P.write_field(new, 'len', SV(IntS, ln))
+            # multiset view: v occurs in the new list iff some element maps to it
+            cnt = container_fields(shape.cls)['cnt'].fresh('mappedcnt')
+            key = sample.shape.fresh('v')
+            qs = sample.shape.unpack(key)
+            P.assume(z3.ForAll(qs, (cnt.shape.select(cnt, key).e >= 1) ==
+                               z3.Exists([k], z3.And(k >= 0, k < ln, self.eq(sample, key)))))
+            P.write_field(new, 'cnt', cnt)
+            return new
+        raise Unsupported('comprehension over symbolic collection')
+
     def comprehension(self, node):
         """supported only over concrete sequences"""
         if len(node.generators) != 1:
@@ -691,7 +758,7 @@ class EvalMixin:
                 # lazily consumed generator over a symbolic collection: the
                 # consumers next(gen, default) / set(gen) know what to do
                 return VGen(node, seq, self)
-            raise Unsupported('comprehension over symbolic collection')
+            return self.symbolic_listcomp(node, seq)
         out = []
         self.push_scope()
         try:
